@@ -5,6 +5,7 @@ package main
 import (
 	"fmt"
 	"go/ast"
+	"go/scanner"
 	"go/token"
 	"strconv"
 	"strings"
@@ -158,11 +159,119 @@ func gen(c *ex.Ctx) {
 
 // ---- Gen/EditorBodies.lean: statement skeletons of the functions the models transcribe ----
 
+// curNames: the variables of the function being printed (receiver, parameters, locals in order of
+// declaration) and their canonical names; the statement texts are printed with these substituted, so
+// that renaming a variable is silent (round 4).
+var curNames map[string]string
+
+// localNames collects the function's own variables in order of declaration.
+func localNames(fd *ast.FuncDecl, recvCanon string) map[string]string {
+	m := map[string]string{}
+	np, nl := 0, 0
+	add := func(id *ast.Ident, param bool) {
+		if id == nil || id.Name == "_" {
+			return
+		}
+		if _, ok := m[id.Name]; ok {
+			return
+		}
+		if param {
+			m[id.Name] = fmt.Sprintf("p%d", np)
+			np++
+		} else {
+			m[id.Name] = fmt.Sprintf("l%d", nl)
+			nl++
+		}
+	}
+	if fd.Recv != nil && len(fd.Recv.List) > 0 && len(fd.Recv.List[0].Names) > 0 && recvCanon != "" {
+		m[fd.Recv.List[0].Names[0].Name] = recvCanon
+	}
+	if fd.Type.Params != nil {
+		for _, f := range fd.Type.Params.List {
+			for _, n := range f.Names {
+				add(n, true)
+			}
+		}
+	}
+	ast.Inspect(fd.Body, func(n ast.Node) bool {
+		switch x := n.(type) {
+		case *ast.AssignStmt:
+			if x.Tok == token.DEFINE {
+				for _, l := range x.Lhs {
+					if id, ok := l.(*ast.Ident); ok {
+						add(id, false)
+					}
+				}
+			}
+		case *ast.ValueSpec:
+			for _, id := range x.Names {
+				add(id, false)
+			}
+		case *ast.RangeStmt:
+			if x.Tok == token.DEFINE {
+				if id, ok := x.Key.(*ast.Ident); ok {
+					add(id, false)
+				}
+				if id, ok := x.Value.(*ast.Ident); ok {
+					add(id, false)
+				}
+			}
+		}
+		return true
+	})
+	return m
+}
+
+// canonText substitutes the canonical names into a piece of source text: identifiers that are not
+// selected fields (`x.f`) and not keys of a composite literal (`f: v`).
+func canonText(src string) string {
+	if len(curNames) == 0 {
+		return src
+	}
+	fset := token.NewFileSet()
+	file := fset.AddFile("", fset.Base(), len(src))
+	var sc scanner.Scanner
+	sc.Init(file, []byte(src), nil, 0)
+	type tk struct {
+		off int
+		tok token.Token
+		lit string
+	}
+	var toks []tk
+	for {
+		pos, tok, lit := sc.Scan()
+		if tok == token.EOF {
+			break
+		}
+		toks = append(toks, tk{file.Offset(pos), tok, lit})
+	}
+	out := src
+	for i := len(toks) - 1; i >= 0; i-- {
+		t := toks[i]
+		if t.tok != token.IDENT {
+			continue
+		}
+		cn, ok := curNames[t.lit]
+		if !ok {
+			continue
+		}
+		if i > 0 && toks[i-1].tok == token.PERIOD {
+			continue
+		}
+		if i+1 < len(toks) && toks[i+1].tok == token.COLON {
+			continue
+		}
+		out = out[:t.off] + cn + out[t.off+len(t.lit):]
+	}
+	return out
+}
+
+
 // skel flattens a statement into lines: control statements become "if COND {" … "}" / "for … {" … "}"
 // with their bodies flattened in between, every other statement is its source text with white space
 // collapsed.  Statement kinds it does not know are emitted as their source text (never a crash).
 func skel(c *ex.Ctx, st ast.Stmt, out *[]string) {
-	flat := func(n ast.Node) string { return strings.Join(strings.Fields(c.Src(n)), " ") }
+	flat := func(n ast.Node) string { return strings.Join(strings.Fields(canonText(c.Src(n))), " ") }
 	block := func(b *ast.BlockStmt) {
 		if b == nil {
 			return
@@ -261,7 +370,7 @@ func skel(c *ex.Ctx, st ast.Stmt, out *[]string) {
 // loop in full (skel).  Guards outside loops are not recorded: rewriting one is not a change of the
 // bookkeeping (the correspondence run judges behaviour), dropping or changing a state update is.
 func writes(c *ex.Ctx, recv string, st ast.Stmt, out *[]string) {
-	flat := func(n ast.Node) string { return strings.Join(strings.Fields(c.Src(n)), " ") }
+	flat := func(n ast.Node) string { return strings.Join(strings.Fields(canonText(c.Src(n))), " ") }
 	onRecv := func(e ast.Expr) bool {
 		for {
 			switch x := e.(type) {
@@ -378,6 +487,14 @@ func genBodies(c *ex.Ctx) {
 			return []string{"unknown: func " + name + " not found in " + file}
 		}
 		var out []string
+		canon := ""
+		if recv == "TextField" {
+			canon = "tf"
+		} else if recv == "Model" {
+			canon = "m"
+		}
+		curNames = localNames(fd, canon)
+		defer func() { curNames = nil }()
 		if recv == "" {
 			for _, st := range fd.Body.List {
 				skel(c, st, &out)
